@@ -207,4 +207,32 @@ theorem sortBy_eq_byRank {β : Type} (key : β → List Int) (l : List β)
     rw [hfind j hj', List.getElem?_eq_getElem hj']
   rw [hall, ← hlen, filterMap_range_getElem?]
 
+/-- with distinct keys `byRank` is a permutation of the list … -/
+theorem byRank_perm {β : Type} (key : β → List Int) (l : List β)
+    (hd : l.Pairwise (fun a b => key a ≠ key b)) : (byRank key l).Perm l := by
+  rw [← sortBy_eq_byRank key l hd]
+  exact sortBy_perm key l
+
+/-- … that holds every element at the position given by its rank -/
+theorem byRank_getElem?_rank {β : Type} (key : β → List Int) (l : List β)
+    (hd : l.Pairwise (fun a b => key a ≠ key b)) (e : β) (he : e ∈ l) :
+    (byRank key l)[rank key l e]? = some e := by
+  rw [← sortBy_eq_byRank key l hd]
+  have hperm := sortBy_perm key l
+  obtain ⟨i, hi, hie⟩ := List.getElem_of_mem (hperm.mem_iff.mpr he)
+  have hd' : (sortBy key l).Pairwise (fun a b => key a ≠ key b) :=
+    hperm.symm.pairwise hd (fun {a b} h => fun e => h e.symm)
+  have hs : (sortBy key l).Pairwise (fun a b => keyLt (key a) (key b) = true) := by
+    refine ((sortBy_pairwise key l).and hd').imp ?_
+    intro a b ⟨h1, h2⟩
+    simp only [keyLt, Bool.not_eq_eq_eq_not, Bool.not_true]
+    cases h3 : keyLe (key b) (key a) with
+    | false => rfl
+    | true => exact absurd (keyLe_antisymm _ _ h1 h3) h2
+  have hrank : rank key l e = i := by
+    unfold rank
+    rw [← hperm.countP_eq, ← hie]
+    exact countP_lt_of_sorted key _ hs i hi
+  rw [hrank, List.getElem?_eq_getElem hi, hie]
+
 end Pew.CsvDir
